@@ -25,8 +25,9 @@ type Case struct {
 
 func Spec() *mon.Spec {
 	return &mon.Spec{
-		ID:    "C04",
-		Level: "exploration",
+		ID:      "C04",
+		RuleAdd: "Later additions (rounds 4-17): bit/byte/register accessors on every view default; strings of 1..255 bytes incl. text with embedded NULs and bytes >= 0x80; for the word-order-only values 4, 8, 12 a view default of o must agree with the explicit-order accessor for o.",
+		Level:   "exploration",
 		Rule: "a window = payload of count registers (1..125) at start (boundary/PRNG incl. windows ending at 65535); the payload is a sub-slice of a larger backing array, presented twice with different poison around it and with 'RTU-like' capacity (2 extra bytes). Every accessor variant (Register, DoubleRegister, QuadRegister, Bit 0..15 and 16/255, Byte/Uint8/Int8 hi/lo, Uint16/Int16, 32/64-bit ints and floats with default order via WithByteOrder and with explicit order, String/StringWithByteOrder lengths 1..255) x the seven documented orders is called at addresses: edges = window +-12, start+-32768, 0, 65535, PRNG; all = every address 0..65535. " +
 			"Oracle (integer arithmetic): all size registers inside [start,start+count) => no error and value == reference decode (floats by bit pattern); otherwise => an error, not a panic, not a value; both poison passes agree. distinct key=(accessor, order, count class, start class, address relation).",
 		Assumptions: []string{"reference decoder regref (documented semantics; validated against the documentation tables)",
